@@ -2,6 +2,7 @@ import PenneModel.Sexp
 import PenneModel.Skel
 import PenneModel.Scope.Labels
 import PenneModel.Place.Syntax
+import PenneModel.Scope.Vars
 /-
   Model driver: one request per line on stdin (`OP<TAB>payload`), one answer per line on stdout.
   Only model files are imported (no Mathlib, no proof files), so this links as a native executable.
@@ -28,6 +29,14 @@ def handle (op payload : String) : String :=
     | some b => "codes=" ++ showCodes (sortNat (Place.chkBody b)) ++ " spec=" ++ showCodes (sortNat (Place.specBody b))
         ++ " lints=" ++ showCodes (Place.lintBody b) ++ " speclints=" ++ showCodes (Place.specLintBody b)
     | none => "bad-request"
+  | "C05" =>
+    match Sexp.parse payload with
+    | some (.list [.atom "fn", .list (.atom "consts" :: cs), .list (.atom "params" :: ps), .list (.atom "body" :: ss)]) =>
+      match Skel.names cs, Skel.names ps, Skel.stmtsOfSexp ss with
+      | some cs, some ps, some b =>
+        "codes=" ++ showCodes (sortNat (Vars.goFunction cs ps b)) ++ " labels=" ++ showCodes (sortNat (Labels.goBody b))
+      | _, _, _ => "bad-request"
+    | _ => "bad-request"
   | _ => "bad-op"
 
 partial def loop (h : IO.FS.Stream) (out : IO.FS.Stream) : IO Unit := do
